@@ -35,7 +35,7 @@ class Path:
 
 
 MAX_DECISIONS_PER_PATH = 300
-ITEM_SECONDS = 45.0  # exploration budget of one configuration (Abort -> inconclusive), set by the driver per harness
+ITEM_SECONDS = 100.0  # exploration budget of one configuration (Abort -> inconclusive), set by the driver per harness
 
 
 class Engine:
